@@ -65,10 +65,21 @@ def _model_value(v):
 
 def _check_api(smt2, timeout_ms, inputs):
     ctx = z3.Context()
-    s = z3.Solver(ctx=ctx)
-    s.set("timeout", timeout_ms)
     t0 = time.time()
+    has_q = "(forall " in smt2 or "(exists " in smt2
     try:
+        if has_q:
+            # phase 1: E-matching only (patterns), no model-based instantiation: proves or gives up quickly
+            s = z3.Solver(ctx=ctx)
+            s.set("timeout", min(timeout_ms, 6000))
+            s.set("smt.mbqi", False)
+            s.set("smt.auto_config", False)
+            s.from_string(smt2)
+            r = s.check()
+            if r == z3.unsat:
+                return {"result": "unsat", "seconds": round(time.time() - t0, 4), "backend": "z3-5.1-api(ematching)"}
+        s = z3.Solver(ctx=ctx)
+        s.set("timeout", timeout_ms)
         s.from_string(smt2)
         r = s.check()
     except z3.Z3Exception as e:
@@ -80,7 +91,21 @@ def _check_api(smt2, timeout_ms, inputs):
         decls = {d.name(): d for d in m.decls()}
         for name in inputs:
             d = decls.get(name)
-            if d is not None and d.arity() == 0:
+            if d is None or d.arity() != 0:
+                continue
+            if "[*]." in name:
+                # field array of an object list: read the first len elements
+                base = name.split("[*].")[0]
+                ld = decls.get(base + "!len")
+                n = 0
+                if ld is not None:
+                    try:
+                        n = m[ld].as_long()
+                    except Exception:
+                        n = 0
+                arr = d()
+                vals[name] = [_model_value(m.eval(z3.Select(arr, z3.IntVal(i, ctx)), model_completion=True)) for i in range(max(0, min(n, 8)))]
+            else:
                 vals[name] = _model_value(m[d])
         out["model"] = vals
     elif r == z3.unknown:
